@@ -54,12 +54,14 @@ const (
 
 func main() {
 	run = h.NewRun(prop, "exploration")
-	run.Rule = "health: PRNG-generated probe outcome sequences over {2xx, non-2xx, timeout, refusal} x maxFailed 0-4 x interval/timeout 1-2 s (http, probe-exact) and closed-listener window scripts (tcp); distinct = (type, settings, outcome sequence). reload: PRNG-generated histories of 3-6 configuration sets over 5 proxy and 2 visitor names (add/remove/change/reorder/duplicate/no-op, api or http reload, burst or settled); distinct = (operation list, application modes). gating: segment scripts per health-checked proxy; distinct = (settings, observed outcome string). scripted: reply policies (ok, error xk, silent, late) x reload moments; distinct = (template, parameters)"
+	run.Rule = "health: PRNG-generated probe outcome sequences over {2xx, non-2xx, timeout, refusal} x maxFailed 0-4 x interval/timeout 1-2 s (http, probe-exact) and closed-listener window scripts (tcp); distinct = (type, settings, outcome sequence). reload: PRNG-generated histories of 3-6 configuration sets over 5 proxy and 2 visitor names (add/remove/change/reorder/duplicate/no-op, api or http reload, burst or settled); distinct = (operation list, application modes). gating: segment scripts per health-checked proxy; distinct = (settings, observed outcome string). scripted: 7 templates (start error xk, missing reply + late reply, removed / changed while the reply is outstanding, health-gated work connections with and without a held reply, unchanged reloads, reload at 0-2 ms after a re-login is accepted); distinct = (template, parameters)"
 	run.Assumptions = []string{
 		"http probes are observed at a recording RoundTripper wrapped around http.DefaultTransport; it delegates to the real transport and only opens/closes the harness's own backend listener between two probes",
 		"a refused tcp probe is invisible to the backend: tcp health scripts are judged with lower bounds on elapsed time (at most floor(W/interval)+1 probes fit into a closed window of measured length W)",
 		"'eventually' clauses (converged, withdrawn, retried) are bounded-progress watchdogs of at least 3x the configured timer + 10 s",
 		"wrapper timers are shortened with clientproxy.VerifSetTimings(100ms, 3s, 2.5s); health intervals and timeouts are whole seconds as in the configuration schema",
+		"a case during which the whole process was not scheduled for more than 3 s at a stretch (6 s in total; measured by a ticker goroutine) is inconclusive: watchdog verdicts assume the process was running during the grace period",
+		"legal repetitions of NewProxy (reply later than the reply timeout, retry after a start error) are taken from the phase log and discounted when registrations are counted",
 		"the stub server plugin sees every NewProxy message frps receives and every CloseProxy that closed an existing proxy (frps notifies closes asynchronously, so only counts and lower time bounds are used)",
 	}
 	ports = h.Ports(prop)
@@ -81,7 +83,11 @@ func main() {
 	var wg sync.WaitGroup
 	var wallMu sync.Mutex
 	walls := map[string]float64{}
+	only := os.Getenv("C19_ONLY") // debugging aid: run one phase only
 	phase := func(name string, f func()) {
+		if only != "" && only != name {
+			return
+		}
 		wg.Add(1)
 		go func() {
 			defer wg.Done()
